@@ -74,7 +74,7 @@ FieldSeq(td, fs, prefix) ==
 
 LevelOf(named, tail, version, descr) ==
   [named |-> named, tail |-> tail, version |-> version, vtag |-> "d", ftu |-> FALSE,
-   version_text |-> "0.0.7", descr |-> descr]
+   version_text |-> "0.0.7", descr |-> descr, help_names |-> <<"-h", "--help">>, ver_names |-> <<"-V", "--version">>]
 TailOf(pos) == IF pos = <<>> THEN [kind |-> "none"] ELSE [kind |-> "pos", items |-> pos]
 
 VariantLeaf(v, id) ==
